@@ -56,6 +56,19 @@ static void worker(void* a) {
   int w = ((WArg*)a)->w;
   int depth = 0;
   const RunSpec& s = *C.spec;
+  if (C.prim == P_MUTEX && simdrv::knob(s, "own_mutex", 0)) {
+    /* every worker also constructs a Mutex of its own, concurrently with the others (the first primitives of the process may be constructed by
+       several threads at once), and checks the owner's side of the contract on it: nobody else ever sees this object */
+    spin((int)(simdrv::knob(s, "own_mutex", 0) >> (2 * w)) & 3);
+    Mutex* own = new Mutex; probe("mutex_constructed_in_worker");
+    own->lock();
+    if (!own->tryLock()) fail("C11/mutex/not_reentrant", "worker %d: tryLock() on a mutex it already holds (constructed by itself, used by nobody else) failed", w);
+    own->lock(); own->unlock(); own->unlock(); own->unlock();
+    if (!own->tryLock()) fail("C11/mutex/trylock_free_failed", "worker %d: tryLock() on its own free mutex failed", w);
+    own->unlock();
+    delete own;
+    while (!*(Mutex* volatile*)&C.mx) forceYield();
+  }
   for (size_t i = 0; i < s.plan.size(); ++i) {
     const Op& op = s.plan[i];
     if (op.task != w) continue;
@@ -85,16 +98,19 @@ static void worker(void* a) {
   if (C.prim == P_THREAD && C.thr[w].started) { Ctx::Thr& th = C.thr[w]; int k = beginOp(w, TH_JOIN, th.ret); uint r = th.th->join(); endOp(k, (int)r); if (!th.ended) fail("C11/thread/join_before_end", "join returned before the thread function finished"); delete th.th; th.th = 0; th.started = false; }
 }
 
+namespace sim { void setSemTimedwaitMissing(bool); }
 static void mainTask(void*) {
+  setSemTimedwaitMissing(simdrv::knob(*C.spec, "no_sem_timedwait", 0) != 0);
   const RunSpec& s = *C.spec;
   switch (C.prim) {
-  case P_MUTEX: C.mx = new Mutex; C.occ = new int(0); break;
+  case P_MUTEX: C.occ = new int(0); if (!simdrv::knob(s, "own_mutex", 0)) C.mx = new Mutex; break;   /* with own_mutex the shared one is constructed while the workers construct theirs */
   case P_SEM: C.se = new Semaphore((uint)simdrv::knob(s, "init", 0)); break;
   case P_SIGNAL: C.sg = new Signal(simdrv::knob(s, "init", 0) != 0); break;
   case P_MONITOR: C.mo = new Monitor; break;
   }
   static WArg args[8];
   for (int w = 0; w < C.ntasks; ++w) { args[w].w = w; C.workerTask[w] = spawn(worker, &args[w], "worker"); }
+  if (C.prim == P_MUTEX && !C.mx) { Mutex* m = new Mutex; C.mx = m; }
   for (int w = 0; w < C.ntasks; ++w) joinTask(C.workerTask[w]);
   delete C.mx; delete C.se; delete C.sg; delete C.mo; delete C.occ; C.mx = 0; C.se = 0; C.sg = 0; C.mo = 0; C.occ = 0;
 }
@@ -215,6 +231,8 @@ static void generate(RunSpec& s, int tier) {
   s.knobs["mem_switch_log2"] = memk[r(5)]; s.knobs["sync_switch_log2"] = synck[r(4)];
   static const int sp[] = {0, 0, 5, 30}; s.knobs["spurious_pct"] = sp[r(4)]; s.knobs["wakeorder_pct"] = r(2) ? 50 : 0; s.knobs["eintr_pct"] = r(3) == 0 ? 10 : 0;
   s.knobs["rt_phase_ms"] = r(1000);
+  s.knobs["own_mutex"] = (prim == P_MUTEX && r(2)) ? 1 + r(255) : 0;
+  s.knobs["no_sem_timedwait"] = (prim == P_SEM && r(5) == 0) ? 1 : 0;      /* a fifth of the semaphore runs: platform without sem_timedwait (polling fallback) */
   int maxOps = 6, total = 0;
   for (int w = 0; w < nt; ++w) {
     int n = 1 + (int)r(maxOps);
